@@ -238,6 +238,21 @@ def _register_y_cells():
         if m != "y_empty":  # an empty update batch is explicitly allowed by the base class
             cell("update/" + m, "malformed_y", "entry_forecaster")(update_cell)
 
+        def update_predict_cell(ctx, m=m):
+            from sktime.forecasting.model_selection import SlidingWindowSplitter
+            spec = ctx.forecaster(["naive", "naive_mean", "trend", "reduce_rec"])
+            f = C.build(spec).fit(ctx.y_train, fh=[1])
+            g = C.build(spec).fit(ctx.y_train, fh=[1])
+            bad = malform_y(m, ctx.y_new, ctx.rng)
+            cv = lambda: SlidingWindowSplitter(fh=[1], window_length=1)  # noqa
+            before = (f.cutoff, len(f._y))
+            return dict(control=lambda: g.update_predict(ctx.y_new, cv(), update_params=False),
+                        faulty=lambda: f.update_predict(bad, cv(), update_params=False),
+                        after=lambda: f.predict([1]),
+                        unchanged=lambda: (f.cutoff, len(f._y)) == before,
+                        sig={"forecaster": _k(spec)})
+        cell("update_predict/" + m, "malformed_y", "entry_forecaster")(update_predict_cell)
+
         def evaluate_cell(ctx, m=m):
             from sktime.forecasting.model_evaluation import evaluate
             from sktime.forecasting.model_selection import SlidingWindowSplitter
